@@ -130,10 +130,13 @@ class EventDispatcher:
         if not value:
             return
 
-        # Deplete queue if enabling
-        for event_name, args, kwargs in self._event_queue:
+        # Deplete queue if enabling. Events are consumed one by one, so
+        # that a callback raising an exception (e.g. Quit, SwitchWorld) or
+        # disabling dispatching again does not cause events to be
+        # dispatched twice. Pending ones are kept in the queue.
+        while self._event_queue and self._dispatch_enabled:
+            event_name, args, kwargs = self._event_queue.pop(0)
             self.dispatch(event_name, *args, **kwargs)
-        self._event_queue.clear()
 
     def clear(self):
         """Remove all handlers and pending events.
